@@ -83,6 +83,8 @@ IsTbl(st, v) == \E i \in 1..st.nobj : v = Tbl(i)
 
 NoBeh == [pre |-> "none", reqs |-> <<>>, post |-> "none", fail |-> FALSE, ret |-> "none"]
 NoLoader == [lid |-> "none", host |-> FALSE, syn |-> FALSE, beh |-> NoBeh]
+StdSearchers == <<[k |-> "P", lid |-> "none"], [k |-> "F", lid |-> "none"]>>
+RetTbl == [pre |-> "none", reqs |-> <<>>, post |-> "none", fail |-> FALSE, ret |-> "tbl"]
 Loader(pos, host, syn, beh) == [lid |-> "L" \o ToString(pos), host |-> host, syn |-> syn, beh |-> beh]
 
 (* A behaviour whose execution is finite: a loader that un-marks its own   *)
@@ -108,7 +110,7 @@ InitState(names, parts, nb, path, skip) ==
     IN [names |-> names, parts |-> [n \in NS |-> parts[Idx(n)]], path |-> path,
         loaded |-> v0, glob |-> v0,
         preload |-> [n \in NS |-> NoLoader],
-        disk |-> <<>>, opened |-> IF skip THEN {} ELSE {"base", "package", "string", "table"},
+        disk |-> <<>>, searchers |-> StdSearchers, opened |-> IF skip THEN {} ELSE {"base", "package", "string", "table"},
         flds |-> {}, nobj |-> nb, ninv |-> 0, log |-> <<>>]
 
 NamesWellFormed(names, parts) ==
@@ -157,14 +159,39 @@ Assign(st, n, kind) ==
       [] kind = "module" -> ModuleCall(st, n)
       [] OTHER -> LET m == MkVal(st, kind) IN [st |-> SetLoaded(m.st, n, m.v), err |-> <<>>]
 
-(* the searchers: package.preload first, then the path templates in order  *)
-FindLoader(st, n) ==
-    IF st.preload[n].lid # "none" THEN [kind |-> "found", ld |-> st.preload[n], raw |-> ""]
-    ELSE LET ds == {i \in 1..NT(st) : CandLoader(st, n, i).lid # "none"}
-         IN IF ds = {} THEN [kind |-> "none", ld |-> NoLoader, raw |-> ""]
-            ELSE LET d == CHOOSE d \in ds : \A e \in ds : d <= e
-                     f == CandLoader(st, n, d)
-                 IN [kind |-> IF f.syn THEN "syn" ELSE "found", ld |-> f, raw |-> CandRaw(st.path[d], st.parts[n])]
+(***************************************************************************)
+(* The searchers.  require reads the table package.loaders on EVERY call   *)
+(* (ll_require: lua_getfield(L, LUA_ENVIRONINDEX, "loaders")), so a script *)
+(* may edit that table in place or replace it by another one; and the      *)
+(* searchers reach package.preload / package.path through the package      *)
+(* TABLE (their environment), never through the global variable "package", *)
+(* which a script may hide.  st.searchers is the current list; a searcher  *)
+(* is [k, lid] with k =                                                    *)
+(*   "P" the standard preload searcher   "F" the standard path searcher    *)
+(*   "C" a custom one that finds every module (its loader returns a value) *)
+(*   "N" a custom one that finds nothing and says so                       *)
+(* What was tried is listed in searcher order: "P" for the preload field,  *)
+(* the file name of every template, "N:<lid>" for a custom refusal.        *)
+(***************************************************************************)
+
+RECURSIVE Search(_, _, _, _)
+Search(st, n, i, msgs) ==
+    IF i > Len(st.searchers) THEN [kind |-> "none", ld |-> NoLoader, raw |-> "", msgs |-> msgs]
+    ELSE LET s == st.searchers[i] IN
+         CASE s.k = "P" ->
+                 IF st.preload[n].lid # "none" THEN [kind |-> "found", ld |-> st.preload[n], raw |-> "", msgs |-> msgs]
+                 ELSE Search(st, n, i + 1, Append(msgs, "P"))
+           [] s.k = "F" ->
+                 LET ds == {t \in 1..NT(st) : CandLoader(st, n, t).lid # "none"}
+                 IN IF ds = {} THEN Search(st, n, i + 1, msgs \o CandRaws(st, n))
+                    ELSE LET d == CHOOSE d \in ds : \A e \in ds : d <= e
+                             f == CandLoader(st, n, d)
+                         IN [kind |-> IF f.syn THEN "syn" ELSE "found", ld |-> f,
+                             raw |-> CandRaw(st.path[d], st.parts[n]), msgs |-> msgs]
+           [] s.k = "C" -> [kind |-> "found", ld |-> [lid |-> s.lid, host |-> FALSE, syn |-> FALSE, beh |-> RetTbl], raw |-> "", msgs |-> msgs]
+           [] OTHER -> Search(st, n, i + 1, Append(msgs, "N:" \o s.lid))
+
+FindLoader(st, n) == Search(st, n, 1, <<>>)
 
 IsErr(r) == r[1] = "err"
 Ok(v) == <<"ok", v>>
@@ -179,9 +206,8 @@ DoRequire(st, n) ==
           ELSE [st |-> st, res |-> Ok(v)])
     ELSE LET f == FindLoader(st, n) IN
          CASE f.kind = "none" ->
-                 \* every searcher's attempt is listed: the preload field, then the file
-                 \* name every template of package.path stands for
-                 [st |-> st, res |-> <<"err", "notfound", n, "P">> \o CandRaws(st, n)]
+                 \* every searcher's attempt is listed, in the order of the searchers
+                 [st |-> st, res |-> <<"err", "notfound", n>> \o f.msgs]
            [] f.kind = "syn" -> [st |-> st, res |-> <<"err", "loaderr", f.raw>>]
            [] OTHER ->
                  LET r == RunLoader(SetLoaded(st, n, Sent), f.ld, n) IN
@@ -234,7 +260,7 @@ Ready(st) == {"base", "package"} \subseteq st.opened
 OpenLib(st, lib) ==
     LET n == LibName(lib)
         s1 == [st EXCEPT !.opened = @ \cup {lib}]
-        s2 == IF lib = "package" THEN [s1 EXCEPT !.preload = [m \in DOMAIN @ |-> NoLoader]] ELSE s1
+        s2 == IF lib = "package" THEN [s1 EXCEPT !.preload = [m \in DOMAIN @ |-> NoLoader], !.searchers = StdSearchers] ELSE s1
     IN IF lib = "base" \/ n \notin SeqSet(st.names) \/ IsTbl(s2, s2.loaded[n]) THEN [st |-> s2, res |-> NoRes]
        ELSE LET g == FindGlobalTable(s2, n)
             IN IF g.err # <<>> THEN [st |-> s2, res |-> g.err]
@@ -252,7 +278,14 @@ Exec(st0, op, pos) ==
       [] op.op = "path" -> [st |-> [st EXCEPT !.path = op.tpl], res |-> NoRes]
       [] op.op = "open" -> OpenLib(st, op.lib)
       [] op.op = "clear" -> [st |-> SetLoaded(st, op.n, Nil), res |-> NoRes]
-      [] op.op = "glob" -> LET m == MkVal(st, op.kind) IN [st |-> [m.st EXCEPT !.glob[op.n] = m.v], res |-> NoRes]
+      [] op.op = "glob" ->
+            \* kind "loaded": the global gets the value of package.loaded[n] (puts a hidden library table back)
+            IF op.kind = "loaded" THEN [st |-> [st EXCEPT !.glob[op.n] = st.loaded[op.n]], res |-> NoRes]
+            ELSE LET m == MkVal(st, op.kind) IN [st |-> [m.st EXCEPT !.glob[op.n] = m.v], res |-> NoRes]
+      [] op.op = "loaders" ->
+            \* package.loaders edited in place or replaced by a new table (op.how): the same thing to require
+            [st |-> [st EXCEPT !.searchers = [i \in 1..Len(op.list) |-> [k |-> op.list[i], lid |-> IF op.list[i] \in {"P", "F"} THEN "none" ELSE "L" \o ToString(pos)]]],
+             res |-> NoRes]
       [] op.op = "register" -> Register(st, op.n, op.f)
 
 (* require, package.* and loaders need the base and package libraries *)
@@ -263,6 +296,7 @@ OpWellFormed(st, op) ==
                            /\ Len(NormPath(op.path)) >= 1
       [] op.op = "rmfile" -> Len(NormPath(op.path)) >= 1
       [] op.op \in {"glob", "register"} -> Plain(st, op.n)
+      [] op.op = "loaders" -> Ready(st) /\ op.how \in {"replace", "inplace"} /\ \A i \in 1..Len(op.list) : op.list[i] \in {"P", "F", "C", "N"}
       [] op.op = "open" -> op.lib \in {"base", "package", "string", "table"} /\ (op.lib = "base" => "_G" \notin SeqSet(st.names))
       [] OTHER -> Ready(st)        \* req, clear, unpreload, path
 
